@@ -184,3 +184,73 @@ def install(spec: Spec):
             ],
             raises=[RaisesClause('RuntimeError', label='recursion_guard', tags=['C01'])])
     spec.methods[('EventBus', '_get_applicable_handlers')] = 'EventBus._get_applicable_handlers'
+
+    # ------------------------------------------------------------------ interference for the bus code (A1): at a suspension point
+    # any other task (other run loops, user tasks, handlers) may have called any public operation
+    spec.interference['default'] = Interference('default', havoc=['*'], keep=['name', 'id', 'event_id', 'event_type', 'handler_id', '__name__', '__self__', '__class__',
+                                                                                 'max_history_size', 'parallel_handlers', 'wal_path', 'q_maxsize', 'g$loop_running', 'g$current_loop', '_depth'],
+                                                 rely=[('queue_identity_stable', 'implies(old(self.event_queue) is not None, self.event_queue is old(self.event_queue) and self._on_idle is old(self._on_idle))', [])])
+    spec.interference['none'] = Interference('none')
+
+    # ------------------------------------------------------------------ ReentrantLock (C06)
+    spec.ghosts['permits_held'] = parse_ty('int')   # permits of the global lock's semaphore acquired by the current task (task-owned)
+    from pyvc import models as _m
+
+    def lock_acquire_model(ex, n, awaited, recv=None):
+        sem = ex.eval(n.func.value)
+        _m.sem_acquire_await(ex, sem)
+        ex.ghost_set('permits_held', mk_int(ex.ghost('permits_held').term + 1))
+        return mk_bool(True)
+
+    def lock_release_model(ex, n, awaited, recv=None):
+        sem = ex.eval(n.func.value)
+        _m.sem_release(ex, n, awaited, sem)
+        ex.ghost_set('permits_held', mk_int(ex.ghost('permits_held').term - 1))
+        return mk_none()
+
+    spec.fn('ReentrantLock._get_semaphore', file=S, qual='ReentrantLock._get_semaphore', params={'self': 'ReentrantLock'}, returns='Semaphore',
+            modifies=[('_semaphore', 'self'), ('_loop', 'self')], raises=[RaisesClause('RuntimeError', label='no_loop', when='not loop_running()')],
+            ensures=[('is_the_locks_semaphore', 'result is self._semaphore', ['C06']),
+                     ('kept_within_one_loop', 'implies(old(self._semaphore) is not None and old(self._loop) is current_loop(), result is old(self._semaphore))', ['C06']),
+                     ('one_permit', 'implies(not (old(self._semaphore) is not None and old(self._loop) is current_loop()), fresh_object(result) and result.sem_value == 1)', ['C06'])])
+    spec.methods[('ReentrantLock', '_get_semaphore')] = 'ReentrantLock._get_semaphore'
+
+    def sf_current_loop(ex):
+        from pyvc.symexec import MOD
+        return ex.read_field(MOD, 'g$current_loop')
+    spec.specfuns['current_loop'] = sf_current_loop
+
+    spec.fn('ReentrantLock.__aenter__', file=S, qual='ReentrantLock.__aenter__', is_async=True, params={'self': 'ReentrantLock'}, returns='ReentrantLock',
+            requires=[('in_loop', 'loop_running()', [])],
+            modifies=[('_depth', 'self'), ('_semaphore', 'self'), ('_loop', 'self'), ('sem_value', '*')], ghost_modifies=['permits_held'],
+            callsites={'self._get_semaphore().acquire': {'model': lock_acquire_model, 'writes': ['sem_value'], 'ghost_writes': ['permits_held'], 'suspends': True}},
+            ensures=[('holds', "ctx('holds_global_lock')", ['C06']),
+                     ('reentrant', "implies(old(ctx('holds_global_lock')), self._depth == old(self._depth) + 1 and permits_held == old(permits_held))", ['C06']),
+                     ('acquired', "implies(not old(ctx('holds_global_lock')), self._depth == 1 and permits_held == old(permits_held) + 1)", ['C06']),
+                     ('returns_self', 'result is self', ['C06'])],
+            raises=[RaisesClause('CancelledError', label='cancelled_while_waiting', tags=['C06'],
+                                 ensures=[('holds_nothing', "permits_held == old(permits_held) and ctx('holds_global_lock') == old(ctx('holds_global_lock')) and self._depth == old(self._depth)", ['C06'])])])
+    spec.methods[('ReentrantLock', '__aenter__')] = 'ReentrantLock.__aenter__'
+
+    spec.fn('ReentrantLock.__aexit__', file=S, qual='ReentrantLock.__aexit__', is_async=True, suspends=False,
+            params={'self': 'ReentrantLock', 'exc_type': 'any', 'exc_val': 'any', 'exc_tb': 'any'}, returns='NoneType',
+            requires=[('in_loop', 'loop_running()', [])],
+            modifies=[('_depth', 'self'), ('_semaphore', 'self'), ('_loop', 'self'), ('sem_value', '*')], ghost_modifies=['permits_held'],
+            callsites={'self._get_semaphore().release': {'model': lock_release_model, 'writes': ['sem_value'], 'ghost_writes': ['permits_held']}},
+            ensures=[('not_held_noop', "implies(not old(ctx('holds_global_lock')), permits_held == old(permits_held) and self._depth == old(self._depth) and not ctx('holds_global_lock'))", ['C06']),
+                     ('last_exit_releases', "implies(old(ctx('holds_global_lock')) and old(self._depth) == 1, not ctx('holds_global_lock') and permits_held == old(permits_held) - 1 and self._depth == 0)", ['C06']),
+                     ('inner_exit_keeps', "implies(old(ctx('holds_global_lock')) and old(self._depth) != 1, ctx('holds_global_lock') and permits_held == old(permits_held) and self._depth == old(self._depth) - 1)", ['C06'])])
+    spec.methods[('ReentrantLock', '__aexit__')] = 'ReentrantLock.__aexit__'
+
+    def lock_new(ex, n, awaited, recv=None):
+        v = ex.fresh_obj('ReentrantLock', 'lock')
+        ex.write_field(v.term, '_semaphore', mk_none())
+        ex.write_field(v.term, '_loop', mk_none())
+        ex.write_field(v.term, '_depth', mk_int(0))
+        return v
+    spec.builtins['ReentrantLock.__new__'] = lock_new
+    spec.fn('bubus._get_global_lock', file=S, qual='_get_global_lock', params={}, returns='ReentrantLock',
+            modifies=[('g$global_lock', 'MODULE')],
+            ensures=[('singleton', 'result is _global_eventbus_lock', ['C06']),
+                     ('kept', 'implies(old(_global_eventbus_lock) is not None, result is old(_global_eventbus_lock))', ['C06']),
+                     ('fresh_depth0', 'implies(old(_global_eventbus_lock) is None, fresh_object(result) and result._depth == 0 and result._semaphore is None)', ['C06'])])
